@@ -21,7 +21,7 @@ type s2cFrame struct {
 
 func c09ServerAlphabet() []s2cFrame {
 	m := msgBytes(1, 1, 0, 3)
-	m10 := msgBytes(1, 1, 1, 10)
+	m10 := []byte{0x0a, 0x08, 0x07, 0x0a, 0x05, 1, 2, 3, 4, 5} // see c09ClientAlphabet
 	return []s2cFrame{
 		{"Hd1", func() *tunnelpb.ServerToClient { return fHdr(1, metadata.Pairs("h", "1")) }},
 		{"Hd5", func() *tunnelpb.ServerToClient { return fHdr(5, nil) }},
